@@ -12,7 +12,7 @@ from vt.world import World, WSpec, Abort
 ID = 'C19'
 KIND = 'explorer'
 LEVEL = 'model_checking'
-BUDGET = {'quick': 120, 'thorough': 1200}
+BUDGET = {'quick': 900, 'thorough': 10800}
 RULE = ('three watchers with every assignment of priorities from {0,1,2} (27, ties included), numprocesses (2,1,2), three '
         'per-watcher warmup combinations, global warmup 0/1, autostart on/off, triggers {daemon start, start all, restart *, '
         'start [ab], restart [ab]}; on a sub-grid one worker death at every loop-iteration boundary and before every kernel '
@@ -40,6 +40,12 @@ def scenarios(tier):
         for trig in (('boot', 'restart-glob-all') if tier == 'quick' else TRIGGERS):
             for gw in ((1,) if tier == 'quick' else (0, 1)):
                 out.append(Scenario('prio', pr=list(pr), wc=1, gw=gw, auto_c=True, trig=trig, E=1))
+    # a dense periodic check (0.2 s < the warmup delays): the respawn of a worker that died during the sequence is attempted
+    # as soon as the sequence lets go of the exclusive slot - it must still keep its watcher's spacing
+    for pr in (sub[:2] if tier == 'quick' else sub):
+        for trig in (('boot',) if tier == 'quick' else ('boot', 'restart-glob-all', 'start-all')):
+            for wc in (1, 2):
+                out.append(Scenario('prio', pr=list(pr), wc=wc, gw=0, auto_c=True, trig=trig, E=1, tick=0.2))
     return out
 
 
@@ -69,7 +75,8 @@ def run(scn, ch):
                 return True
             kw['hooks'] = {'after_spawn': (slow_hook, False)}
         specs.append(WSpec(nm, **kw))
-    world = World(ch, specs, arbiter_kw={'warmup_delay': scn.gw})
+    tick = scn.p.get('tick')
+    world = World(ch, specs, arbiter_kw={'warmup_delay': scn.gw}, **({'check_delay': tick} if tick else {}))
     win = Window(world)
     prio = dict(zip(names, scn.pr))
     wdel = dict(zip(names, ws))
@@ -115,6 +122,18 @@ def run(scn, ch):
         spawns = [(p.spawn_time, p.watcher) for p in world.kernel.spawn_log[n0:]]
         deaths = [t for t in world.trace if t[1].startswith('inject')]
         _oracle(res, scn, spawns, involved, prio, wdel, deaths)
+        if scn.E > 0:
+            # what the sequence leaves behind: the replacement of a worker that died during it is spawned by the next
+            # periodic check that gets the slot; per watcher, consecutive spawns stay warmup_delay apart across that boundary
+            world.run(horizon=2 * world.check_delay + 0.6)
+            later = [(p.spawn_time, p.watcher) for p in world.kernel.spawn_log[n0:]]
+            for nm in names:
+                ts = [t for t, w_ in later if w_ == nm]
+                for i in range(len(ts) - 1):
+                    res.check('C19.spacing_watcher', ts[i + 1] - ts[i] >= wdel[nm] - TOL,
+                              lambda: 'consecutive spawns of %s only %.3fs apart (warmup_delay %.2f), the later one after the '
+                              'start sequence had ended: %s' % (nm, ts[i + 1] - ts[i], wdel[nm], [(round(t, 3), w_) for t, w_ in later]),
+                              where='watcher.spawn_processes/after-the-sequence', nontrivial=wdel[nm] > 0 and len(later) > len(spawns))
         res.outcome = digest([[(round(t - t0, 3), w) for t, w in spawns]])
         return finish(world, res)
     except Abort as e:
